@@ -581,3 +581,31 @@ theorem i2cAttempts_sends (cfg : I2cCfg) (h : Hdr) (n : Nat) (evs : List I2cEven
     · simp
 
 end PyIpmi.Loops
+
+namespace PyIpmi.Loops
+
+/-! ### the guard of the ipmb-dev / Aardvark transports (fixes/C09-2.diff) -/
+
+theorem i2cRefuses_iff (cfg : I2cCfg) (routing : List Hop) :
+    i2cRefuses cfg routing = true ↔ cfg.refuseRouted = true ∧ 1 < routing.length := by
+  simp [i2cRefuses]
+
+theorem i2cRequest_refused (cfg : I2cCfg) (nextSeq : Nat) (req : Req) (evs : List I2cEvent)
+    (hr : i2cRefuses cfg req.routing = true) : i2cRequest cfg nextSeq req evs = i2cRefused nextSeq evs := by
+  simp [i2cRequest, hr]
+
+theorem i2cRequest_not_refused (cfg : I2cCfg) (nextSeq : Nat) (req : Req) (evs : List I2cEvent)
+    (hr : i2cRefuses cfg req.routing = false) :
+    i2cRequest cfg nextSeq req evs =
+      { nextSeq := i2cIncSeq nextSeq,
+        out := (i2cAttempts cfg (mkHdr cfg.slaveAddr req (i2cIncSeq nextSeq)) cfg.attempts evs 0).out,
+        tx := List.replicate (i2cAttempts cfg (mkHdr cfg.slaveAddr req (i2cIncSeq nextSeq)) cfg.attempts evs 0).sends
+          (encodeIpmbMsg (mkHdr cfg.slaveAddr req (i2cIncSeq nextSeq)) req.payload),
+        rest := (i2cAttempts cfg (mkHdr cfg.slaveAddr req (i2cIncSeq nextSeq)) cfg.attempts evs 0).rest } := by
+  simp [i2cRequest, hr]
+
+theorem i2cProbe_refused (cfg : I2cCfg) (inc : Bool) (nextSeq rsSa : Nat) (evs : List I2cEvent) (routing : List Hop)
+    (hr : i2cRefuses cfg routing = true) : i2cProbe cfg inc nextSeq rsSa evs routing = i2cRefused nextSeq evs := by
+  simp [i2cProbe, hr]
+
+end PyIpmi.Loops
